@@ -379,6 +379,8 @@ pub struct Driver {
     pub universe: Vec<u64>,
     pub sticky_tick: Option<(usize, u32)>,
     pub allow_new_ids: bool,
+    /// `drain` returns as soon as this node is in the leader role (directed schedules).
+    pub stop_when_leader: Option<usize>,
 }
 
 const BOOT_TERM: u64 = 2;
@@ -413,6 +415,8 @@ impl Driver {
         let mut sim = Sim::new(mon, trace_cap);
         sim.boot = shape.boot;
         sim.boot_term = if shape.boot > 0 { BOOT_TERM } else { 0 };
+        sim.net.echo_snapshots = if profile == Profile::Snapshot { 3 } else { 10 };
+        sim.net.echo_state = seed ^ 0x9e37_79b9_7f4a_7c15;
 
         let members: Vec<u64> = init_conf.members().into_iter().collect();
         let mut universe = members.clone();
@@ -486,6 +490,7 @@ impl Driver {
             universe,
             sticky_tick: None,
             allow_new_ids,
+            stop_when_leader: None,
         }
     }
 
@@ -606,8 +611,26 @@ impl Driver {
                     j
                 };
                 if kind == K_DUP {
+                    // snapshots are the messages whose late duplicates matter most
+                    if self.profile == Profile::Snapshot && r.chance(1, 2) {
+                        if let Some(k) = self
+                            .sim
+                            .net
+                            .flights
+                            .iter()
+                            .position(|f| f.m.get_msg_type() == MessageType::MsgSnapshot && !f.late)
+                        {
+                            return Some(Action::Dup(k));
+                        }
+                    }
                     Action::Dup(i)
                 } else {
+                    // duplicated snapshots linger in the network (they arrive late, after the
+                    // receiver has moved on)
+                    let f = &self.sim.net.flights[i];
+                    if f.late && f.m.get_msg_type() == MessageType::MsgSnapshot && r.chance(7, 8) {
+                        return None;
+                    }
                     Action::Deliver(i)
                 }
             }
@@ -661,7 +684,7 @@ impl Driver {
                 for k in 0..n {
                     let v = (start + k) % n;
                     let nd = &self.sim.nodes[v];
-                    if nd.idle() && !nd.apply_q.is_empty() {
+                    if nd.idle() && !nd.apply_q.is_empty() && !nd.apply_hold {
                         found = Some(v);
                         break;
                     }
@@ -809,7 +832,8 @@ impl Driver {
                 if ck <= snap {
                     return None;
                 }
-                let to = snap + 1 + self.rng.below(ck - snap);
+                // applications usually compact right up to their latest checkpoint
+                let to = if self.rng.chance(1, 2) { ck } else { snap + 1 + self.rng.below(ck - snap) };
                 Action::Compact(v, to)
             }
             K_ARMSNAP => Action::ArmSnapUnavail(r.usize(n), 1 + r.below(3) as u32),
@@ -863,9 +887,19 @@ impl Driver {
 
     /// Runs every node's pipeline, persistence and apply queue to completion and delivers all
     /// deliverable messages, repeatedly, until nothing moves (bounded).
+    fn drain_stop(&self) -> bool {
+        self.sim.aborted
+            || self.stop_when_leader.is_some_and(|v| {
+                self.sim.nodes[v].raw.as_ref().is_some_and(|r| r.raft.state == StateRole::Leader)
+            })
+    }
+
     pub fn drain(&mut self, max_iter: usize) {
+        // duplicated snapshots are late arrivals: they are delivered only once everything else
+        // has come to rest (so the receiver has usually moved past them)
+        let mut flush_late = false;
         for _ in 0..max_iter {
-            if self.sim.aborted {
+            if self.drain_stop() {
                 return;
             }
             let mut moved = false;
@@ -873,6 +907,9 @@ impl Driver {
                 let mut guard = 0;
                 while self.sim.nodes[v].up() && guard < 64 {
                     guard += 1;
+                    if self.stop_when_leader.is_some() && self.drain_stop() {
+                        return;
+                    }
                     let nd = &self.sim.nodes[v];
                     let busy = nd.stage != Stage::Idle || nd.raw.as_ref().unwrap().has_ready();
                     if busy {
@@ -889,7 +926,7 @@ impl Driver {
                         }
                         continue;
                     }
-                    if !nd.apply_q.is_empty() {
+                    if !nd.apply_q.is_empty() && !nd.apply_hold {
                         if self.sim.exec(&Action::Apply(v, 16)) {
                             moved = true;
                         }
@@ -911,7 +948,7 @@ impl Driver {
             let mut i = 0;
             self.sim.net.flights.sort_by_key(|f| f.id);
             while i < self.sim.net.flights.len() {
-                if self.sim.aborted {
+                if self.drain_stop() {
                     return;
                 }
                 let to = self.sim.net.flights[i].m.to;
@@ -925,6 +962,14 @@ impl Driver {
                 };
                 if dead {
                     self.sim.net.flights.remove(i);
+                    continue;
+                }
+                let late = {
+                    let f = &self.sim.net.flights[i];
+                    f.late && f.m.get_msg_type() == MessageType::MsgSnapshot
+                };
+                if late && !flush_late {
+                    i += 1;
                     continue;
                 }
                 if deliverable {
@@ -960,9 +1005,338 @@ impl Driver {
                 }
             }
             if !moved {
+                let any_late = self
+                    .sim
+                    .net
+                    .flights
+                    .iter()
+                    .any(|f| f.late && f.m.get_msg_type() == MessageType::MsgSnapshot);
+                if flush_late || !any_late {
+                    return;
+                }
+                flush_late = true;
+            } else {
+                flush_late = false;
+            }
+        }
+    }
+
+    /// Directed schedule aimed at elections under a stale configuration (C02, C03, C09): a
+    /// majority of the current voters stops applying (their apply workers stall) while the leader
+    /// commits an ordinary entry and then two voter additions; the stalled voters are then cut
+    /// off from the rest and their clocks run. With the library's guard they must not campaign
+    /// (they hold committed, unapplied membership changes); if they did, their old majority and
+    /// the new configuration's majority on the other side would not intersect. Variant A lets
+    /// the other side commit more entries first (leader completeness), variant B makes the other
+    /// side elect a new leader in the same term (election safety). Only genuine library traffic.
+    pub fn stalled_apply_split(&mut self) {
+        let l = match self.pick_leader() {
+            Some(l) => l,
+            None => return,
+        };
+        if !self.sim.nodes[l].idle() {
+            return;
+        }
+        let lid = self.sim.nodes[l].id;
+        let conf = self.sim.nodes[l].conf.clone();
+        if conf.is_joint() {
+            return;
+        }
+        let voters: Vec<u64> = conf.voters.iter().cloned().collect();
+        let nv = voters.len();
+        if nv != 3 && nv != 5 {
+            return;
+        }
+        let spare: Vec<u64> = self
+            .universe
+            .iter()
+            .cloned()
+            .filter(|id| !conf.voters.contains(id))
+            .filter(|id| self.sim.idx_of(*id).is_some_and(|v| self.sim.nodes[v].up() && !self.sim.nodes[v].stopped))
+            .collect();
+        if spare.len() < 2 {
+            return;
+        }
+        let mut others: Vec<u64> = voters
+            .iter()
+            .cloned()
+            .filter(|x| *x != lid)
+            .filter(|id| self.sim.idx_of(*id).is_some_and(|v| self.sim.nodes[v].up() && !self.sim.nodes[v].stopped))
+            .collect();
+        let k = nv / 2 + 1;
+        if others.len() < k {
+            return;
+        }
+        self.rng.shuffle(&mut others);
+        others.truncate(k);
+        self.sim.exec(&Action::Heal);
+        self.drain(8);
+        if self.sim.aborted {
+            return;
+        }
+        let lag: Vec<usize> = others.iter().filter_map(|id| self.sim.idx_of(*id)).collect();
+        for &v in &lag {
+            if !self.sim.nodes[v].idle() {
                 return;
             }
         }
+        for &v in &lag {
+            if self.sim.nodes[v].mode == AppMode::Sync {
+                // the application moves applying to a worker (legal between two Ready rounds)
+                self.sim.nodes[v].mode = AppMode::Lazy;
+            }
+            self.sim.nodes[v].apply_hold = true;
+        }
+        self.sim.mon.stats.inc("c02.stalled_apply_scenarios");
+        // an ordinary entry first, then two voter additions; the leader applies them, the stalled
+        // voters only persist and acknowledge them
+        if self.sim.nodes[l].idle() {
+            let sz = 30 + self.rng.usize(40);
+            self.sim.exec(&Action::Propose(l, sz));
+        }
+        self.drain(8);
+        for s in spare.iter().take(2) {
+            if self.sim.aborted {
+                return;
+            }
+            if self.sim.nodes[l].idle() {
+                self.sim.exec(&Action::ProposeConf(l, ConfSpec::V1(ConfChangeType::AddNode, *s)));
+            }
+            self.drain(10);
+        }
+        // spread the commit index
+        for _ in 0..self.knobs.heartbeat_tick + 1 {
+            if self.sim.nodes[l].idle() {
+                self.sim.exec(&Action::Tick(l));
+            }
+            self.drain(4);
+        }
+        if self.sim.aborted {
+            return;
+        }
+        let grown = self.sim.nodes[l].up()
+            && self.sim.nodes[l].raw.as_ref().is_some_and(|r| r.raft.state == StateRole::Leader)
+            && self.sim.nodes[l].conf.voters.len() == nv + 2
+            && !self.sim.nodes[l].conf.is_joint();
+        if !grown {
+            for &v in &lag {
+                self.sim.nodes[v].apply_hold = false;
+            }
+            return;
+        }
+        self.sim.mon.stats.inc("c02.stalled_apply_scenarios_grown");
+        let mut mask = 0u64;
+        for id in &others {
+            mask |= 1 << id;
+        }
+        self.sim.exec(&Action::Partition(mask));
+        let variant_b = self.rng.chance(1, 2);
+        if !variant_b {
+            // the rest commits more entries that the stalled side never sees
+            for _ in 0..2 {
+                if self.sim.nodes[l].idle() {
+                    self.sim.exec(&Action::Propose(l, 8));
+                }
+                self.drain(6);
+            }
+        }
+        // clocks of the stalled side run (the rest keeps heartbeating so its leader stays)
+        let et = self.knobs.election_tick;
+        let mut campaigned = false;
+        for _round in 0..(5 * et) {
+            if self.sim.aborted {
+                return;
+            }
+            for &v in &lag {
+                if self.sim.nodes[v].idle() {
+                    self.sim.exec(&Action::Tick(v));
+                }
+            }
+            self.drain(6);
+            if lag.iter().any(|&v| {
+                self.sim.nodes[v]
+                    .raw
+                    .as_ref()
+                    .is_some_and(|r| r.raft.state != StateRole::Follower)
+            }) {
+                campaigned = true;
+            }
+            if lag.iter().any(|&v| self.sim.nodes[v].raw.as_ref().is_some_and(|r| r.raft.state == StateRole::Leader)) {
+                break;
+            }
+        }
+        self.sim.mon.stats.inc(if campaigned { "c02.stalled_apply_side_campaigned" } else { "c02.stalled_apply_side_refused" });
+        if variant_b && !self.sim.aborted {
+            // the other side changes leader too: a transfer makes the target campaign at once
+            let target = spare[0];
+            if self.sim.nodes[l].idle() && self.sim.nodes[l].raw.as_ref().is_some_and(|r| r.raft.state == StateRole::Leader) {
+                self.sim.exec(&Action::Transfer(l, target));
+            }
+            for _ in 0..2 * et {
+                if self.sim.aborted {
+                    return;
+                }
+                self.drain(6);
+                if self.sim.nodes[l].idle() {
+                    self.sim.exec(&Action::Tick(l));
+                }
+            }
+        }
+        self.sim.exec(&Action::Heal);
+        for &v in &lag {
+            self.sim.nodes[v].apply_hold = false;
+        }
+        self.drain(8);
+    }
+
+    /// Directed schedule aimed at per-follower leader state that must not survive a change of
+    /// leadership (C04, C01, C13, C15): the leader replicates a few entries to one follower F only,
+    /// F is cut off, the others elect a new leader that overwrites that tail on the old leader,
+    /// leadership is handed back to the old leader (same process, no restart), and right after it
+    /// wins it can reach just one follower. Whatever it remembers about F from its first
+    /// leadership is false now; with only two up-to-date copies nothing may commit.
+    pub fn regained_leadership(&mut self) {
+        let l = match self.pick_leader() {
+            Some(l) => l,
+            None => return,
+        };
+        if !self.sim.nodes[l].idle() {
+            return;
+        }
+        let lid = self.sim.nodes[l].id;
+        let conf = self.sim.nodes[l].conf.clone();
+        if conf.is_joint() || conf.voters.len() < 5 {
+            return;
+        }
+        let voters: Vec<u64> = conf.voters.iter().cloned().collect();
+        let all_up = voters
+            .iter()
+            .all(|id| self.sim.idx_of(*id).is_some_and(|v| self.sim.nodes[v].up() && !self.sim.nodes[v].stopped));
+        if !all_up {
+            return;
+        }
+        self.sim.exec(&Action::Heal);
+        self.drain(8);
+        if self.sim.aborted || !self.sim.nodes[l].idle() {
+            return;
+        }
+        if !self.sim.nodes[l].raw.as_ref().is_some_and(|r| r.raft.state == StateRole::Leader) {
+            return;
+        }
+        let mut others: Vec<u64> = voters.iter().cloned().filter(|x| *x != lid).collect();
+        self.rng.shuffle(&mut others);
+        let fid = others[0];
+        let xid = others[1];
+        self.sim.mon.stats.inc("c04.regained_leadership_scenarios");
+        // 1. entries that reach F only
+        self.sim.exec(&Action::Partition(1 << lid | 1 << fid));
+        let k = 2 + self.rng.usize(3);
+        for _ in 0..k {
+            if self.sim.nodes[l].idle() {
+                self.sim.exec(&Action::Propose(l, 8));
+            }
+            self.drain(6);
+        }
+        // 2. F alone, old leader alone, the rest elects
+        self.sim.exec(&Action::Isolate(fid));
+        self.sim.exec(&Action::Isolate(lid));
+        let et = self.knobs.election_tick;
+        let mut newl = None;
+        for _ in 0..(6 * et) {
+            if self.sim.aborted {
+                return;
+            }
+            for v in 0..self.n() {
+                let id = self.sim.nodes[v].id;
+                if id != lid && id != fid && self.sim.nodes[v].idle() {
+                    self.sim.exec(&Action::Tick(v));
+                }
+            }
+            self.drain(6);
+            newl = (0..self.n()).find(|&v| {
+                let id = self.sim.nodes[v].id;
+                id != lid
+                    && id != fid
+                    && self.sim.nodes[v].raw.as_ref().is_some_and(|r| {
+                        r.raft.state == StateRole::Leader && r.raft.raft_log.committed == r.raft.raft_log.last_index()
+                    })
+            });
+            if newl.is_some() {
+                break;
+            }
+        }
+        let nl = match newl {
+            Some(nl) => nl,
+            None => {
+                self.sim.exec(&Action::Heal);
+                return;
+            }
+        };
+        // 3. the old leader rejoins (F stays cut off) and is caught up by the new leader
+        self.sim.exec(&Action::Heal);
+        self.sim.exec(&Action::Isolate(fid));
+        for _ in 0..3 {
+            if self.sim.nodes[nl].idle() {
+                self.sim.exec(&Action::Tick(nl));
+            }
+            self.drain(8);
+        }
+        if self.sim.aborted {
+            return;
+        }
+        let caught_up = self.sim.nodes[l].raw.as_ref().is_some_and(|r| r.raft.state == StateRole::Follower)
+            && self.sim.nodes[nl].raw.as_ref().is_some_and(|r| r.raft.state == StateRole::Leader)
+            && self.sim.nodes[l].raw.as_ref().map(|r| r.raft.raft_log.last_index())
+                == self.sim.nodes[nl].raw.as_ref().map(|r| r.raft.raft_log.last_index());
+        if !caught_up || !self.sim.nodes[nl].idle() {
+            self.sim.exec(&Action::Heal);
+            return;
+        }
+        // 4. leadership goes back; the moment the old leader wins it can reach only X
+        self.sim.exec(&Action::Transfer(nl, lid));
+        self.stop_when_leader = Some(l);
+        for _ in 0..4 {
+            self.drain(8);
+            if self.drain_stop() {
+                break;
+            }
+            if self.sim.nodes[l].idle() {
+                self.sim.exec(&Action::Tick(l));
+            }
+        }
+        self.stop_when_leader = None;
+        if self.sim.aborted {
+            return;
+        }
+        let regained = self.sim.nodes[l].raw.as_ref().is_some_and(|r| r.raft.state == StateRole::Leader);
+        if regained {
+            self.sim.mon.stats.inc("c04.regained_leadership_reached");
+            self.sim.exec(&Action::Partition(1 << lid | 1 << xid));
+            self.sim.exec(&Action::Isolate(fid));
+            self.drain(10);
+            for _ in 0..self.knobs.heartbeat_tick + 1 {
+                if self.sim.nodes[l].idle() {
+                    self.sim.exec(&Action::Tick(l));
+                }
+                self.drain(6);
+            }
+            if self.sim.nodes[l].idle() && self.rng.chance(1, 2) {
+                self.sim.exec(&Action::Propose(l, 8));
+                self.drain(6);
+            }
+            // 5. F comes back and hears the leader before anything repaired its log
+            if self.rng.chance(1, 2) {
+                self.sim.exec(&Action::Partition(1 << lid | 1 << xid | 1 << fid));
+                for _ in 0..self.knobs.heartbeat_tick + 1 {
+                    if self.sim.nodes[l].idle() {
+                        self.sim.exec(&Action::Tick(l));
+                    }
+                    self.drain(6);
+                }
+            }
+        }
+        self.sim.exec(&Action::Heal);
+        self.drain(8);
     }
 
     /// Directed schedule for the "superseded leader" clause of C08: cut the leader (with at most
@@ -1130,6 +1504,18 @@ pub fn run_exec_focus(seed: u64, profile: Profile, actions: usize, trace_cap: us
         }
         if profile == Profile::Reads && d.rng.chance(1, 2) {
             d.stale_leader_reads();
+            if d.sim.aborted {
+                break;
+            }
+        }
+        if matches!(profile, Profile::Replication | Profile::Election | Profile::Crash) && d.rng.chance(1, 4) {
+            d.regained_leadership();
+            if d.sim.aborted {
+                break;
+            }
+        }
+        if matches!(profile, Profile::Membership | Profile::Election) && d.rng.chance(1, 4) {
+            d.stalled_apply_split();
             if d.sim.aborted {
                 break;
             }
